@@ -1,9 +1,11 @@
 (* PasswordCfb_proofs.v — proofs for property C20, OOXML part, over the compound-file model of
    property C13 (Cfb.v / Cfb_proofs.v):
      the signature check of Header::from_reader on bytes (a zip is never a compound file),
-     has_directory over a directory array, Directory::from_slice on a written entry,
-     check_for_password_protected on the BYTES of a written container in ANY valid layout
-     (composition with C13's written_names_listed / cfb_new_written), its converse, totality. *)
+     has_directory over a directory array (an entry of the ROOT storage since the fix of audit
+     finding G8; the flat scan when the root entry links to no child), Directory::from_slice on a
+     written entry, check_for_password_protected on the BYTES of a written container in ANY valid
+     layout (composition with C13's has_directory_root / has_directory_flat / cfb_new_written), its
+     converse, totality. *)
 From Calamine Require Import Prelude Utf16 Utf16_proofs Cfb Cfb_proofs PasswordCfb.
 Open Scope N_scope.
 
@@ -65,26 +67,93 @@ Lemma has_directory_is_cfb : forall cf name,
   Cfb.has_directory cf name = PasswordCfb.has_directory (directories cf) name.
 Proof. reflexivity. Qed.
 
-Lemma has_directory_iff : forall dirs name,
-  PasswordCfb.has_directory dirs name = true <-> exists d, In d dirs /\ d_name d = name.
+(* the ids Cfb::children collects are entries of the array *)
+Lemma children_loop_in_range : forall fuel ds seen todo acc l,
+  (forall i, In i acc -> exists d, nthN ds i = Some d) ->
+  children_loop fuel ds seen todo acc = Ok l -> forall i, In i l -> exists d, nthN ds i = Some d.
 Proof.
-  intros dirs name. unfold PasswordCfb.has_directory. rewrite existsb_exists. split.
-  - intros (d & Hin & H). exists d. split; [exact Hin|]. apply list_eqb_eq. exact H.
-  - intros (d & Hin & H). exists d. split; [exact Hin|]. apply list_eqb_eq. exact H.
+  induction fuel as [|f IH]; intros ds seen todo acc l Hacc H i Hi.
+  - destruct todo; [|discriminate]. cbn [children_loop] in H. inversion H; subst l.
+    apply in_rev in Hi. apply Hacc. exact Hi.
+  - destruct todo as [|id rest].
+    + cbn [children_loop] in H. inversion H; subst l. apply in_rev in Hi. apply Hacc. exact Hi.
+    + cbn [children_loop] in H. destruct (nthN ds id) as [d|] eqn:Ed.
+      * destruct (memN id seen); [apply (@IH _ _ _ _ _ Hacc H i Hi)|].
+        refine (IH _ _ _ _ _ _ H i Hi). intros j [<-|Hj]; [exists d; exact Ed|apply Hacc; exact Hj].
+      * apply (@IH _ _ _ _ _ Hacc H i Hi).
 Qed.
 
-(* MAIN (ooxml, positive, over a parsed directory): an entry named EncryptedPackage at any index,
-   among any other entries, makes the check answer Password; the zip is never opened *)
+Lemma children_in_range : forall ds p i, In i (children ds p) -> exists d, nthN ds i = Some d.
+Proof.
+  intros ds p i Hi. unfold children in Hi. destruct (nthN ds p) as [dp|]; [|destruct Hi].
+  destruct (children_loop (children_fuel ds) ds [0] [d_child dp] []) as [l| | |] eqn:E; try destruct Hi.
+  refine (@children_loop_in_range _ _ _ _ _ _ _ E i Hi). intros j [].
+Qed.
+
+Lemma nthN_In : forall (A : Type) (l : list A) i d, nthN l i = Some d -> In d l.
+Proof. intros A l i d H. rewrite nthN_nth_error in H. apply (nth_error_In _ _ H). Qed.
+
+(* whatever the links: an entry that has_directory finds carries the name and is in the array *)
+Lemma has_directory_sound : forall dirs name,
+  PasswordCfb.has_directory dirs name = true -> exists d, In d dirs /\ d_name d = name.
+Proof.
+  intros dirs name H. unfold PasswordCfb.has_directory in H.
+  destruct (find_entry dirs [name]) as [d|] eqn:E; [|discriminate]. clear H. unfold find_entry in E.
+  destruct (children dirs 0) as [|x xs] eqn:Ec.
+  - cbn [last_opt] in E. unfold find_dir in E. apply find_some in E.
+    exists d. split; [exact (proj1 E)|apply list_eqb_eq; exact (proj2 E)].
+  - cbn [find_from] in E. rewrite Ec in E. destruct (find (name_is dirs name) (x :: xs)) as [i|] eqn:Ef; [|discriminate].
+    apply find_some in Ef. destruct Ef as [_ Ef]. unfold name_is in Ef. rewrite E in Ef.
+    exists d. split; [apply (@nthN_In _ _ _ _ E)|apply list_eqb_eq; exact Ef].
+Qed.
+
+(* no hierarchy in the array (the root entry links to no child): any entry of that name *)
+Lemma has_directory_flat_iff : forall dirs name, children dirs 0 = [] ->
+  (PasswordCfb.has_directory dirs name = true <-> exists d, In d dirs /\ d_name d = name).
+Proof.
+  intros dirs name Hc. split; [apply has_directory_sound|]. intros (d & Hin & Hn).
+  unfold PasswordCfb.has_directory. rewrite find_entry_flat by exact Hc. cbn [last_opt]. unfold find_dir.
+  destruct (find (fun d => list_eqb (d_name d) name) dirs) as [d'|] eqn:E; [reflexivity|].
+  pose proof (find_none _ _ E d Hin) as H. cbn beta in H. rewrite Hn, list_eqb_refl in H. discriminate.
+Qed.
+
+(* a hierarchy: an entry of that name among those the root entry's sibling tree links to *)
+Lemma has_directory_child : forall dirs name i d,
+  In i (children dirs 0) -> nthN dirs i = Some d -> d_name d = name ->
+  PasswordCfb.has_directory dirs name = true.
+Proof.
+  intros dirs name i d Hi Hd Hn. unfold PasswordCfb.has_directory, find_entry.
+  destruct (children dirs 0) as [|x xs] eqn:Ec; [destruct Hi|]. cbn [find_from]. rewrite Ec.
+  destruct (find (name_is dirs name) (x :: xs)) as [j|] eqn:E.
+  - apply find_some in E. destruct E as [Hj _]. rewrite <- Ec in Hj.
+    destruct (@children_in_range dirs 0 j Hj) as [dj Hdj]. rewrite Hdj. reflexivity.
+  - pose proof (find_none _ _ E i Hi) as H. unfold name_is in H. rewrite Hd, Hn, list_eqb_refl in H. discriminate.
+Qed.
+
+(* MAIN (ooxml, positive, over a parsed directory without hierarchy — what every lookup was before
+   the fix of G8): an entry named EncryptedPackage at any index, among any other entries, makes
+   the check answer Password; the zip is never opened *)
 Theorem encrypted_package_is_password : forall before d after_ zip,
+  children (before ++ d :: after_) 0 = [] ->
   d_name d = ENCRYPTED_PACKAGE ->
   ooxml_check (Ok (before ++ d :: after_)) = Err E_PASSWORD /\
   ooxml_new (Ok (before ++ d :: after_)) zip = Err E_PASSWORD.
 Proof.
-  intros before d after_ zip H.
+  intros before d after_ zip Hc H.
   assert (Hd : PasswordCfb.has_directory (before ++ d :: after_) ENCRYPTED_PACKAGE = true).
-  { apply has_directory_iff. exists d. split; [|exact H]. apply in_or_app. right. left.
+  { apply (@has_directory_flat_iff (before ++ d :: after_) ENCRYPTED_PACKAGE Hc). exists d. split; [|exact H]. apply in_or_app. right. left.
     reflexivity. }
   unfold ooxml_new, ooxml_check. rewrite Hd. split; reflexivity.
+Qed.
+
+(* MAIN (ooxml, positive, over a parsed directory with a hierarchy): an entry named
+   EncryptedPackage that the root storage holds — at any index of the array *)
+Theorem encrypted_package_of_root_is_password : forall dirs i d zip,
+  In i (children dirs 0) -> nthN dirs i = Some d -> d_name d = ENCRYPTED_PACKAGE ->
+  ooxml_check (Ok dirs) = Err E_PASSWORD /\ ooxml_new (Ok dirs) zip = Err E_PASSWORD.
+Proof.
+  intros dirs i d zip Hi Hd Hn. pose proof (@has_directory_child dirs ENCRYPTED_PACKAGE i d Hi Hd Hn) as H.
+  unfold ooxml_new, ooxml_check. rewrite H. split; reflexivity.
 Qed.
 
 Theorem no_encrypted_package_not_password : forall cfb,
@@ -93,7 +162,7 @@ Theorem no_encrypted_package_not_password : forall cfb,
 Proof.
   intros cfb H. unfold ooxml_check. destruct cfb as [dirs|e| |]; try discriminate.
   destruct (PasswordCfb.has_directory dirs ENCRYPTED_PACKAGE) eqn:E; [|discriminate].
-  apply has_directory_iff in E. destruct E as (d & Hin & Hd).
+  apply has_directory_sound in E. destruct E as (d & Hin & Hd).
   exfalso. exact (H dirs eq_refl d Hin Hd).
 Qed.
 
@@ -160,13 +229,17 @@ Proof.
   cbn [le_bytes length]. lia.
 Qed.
 
+Definition slice_entry (buf : list N) (ss : N) : dirent :=
+  {| d_name := decode_name (firstn 64 buf);
+     d_left := u32_at buf 68; d_right := u32_at buf 72; d_child := u32_at buf 76;
+     d_start := u32_at buf 116;
+     d_len := if ss =? 512 then u32_at buf 120 else u64_at buf 120 |}.
+
 Lemma from_slice_128 : forall buf ss, length buf = 128%nat ->
-  from_slice buf ss =
-  Ok {| d_name := decode_name (firstn 64 buf); d_start := u32_at buf 116;
-        d_len := if ss =? 512 then u32_at buf 120 else u64_at buf 120 |}.
+  from_slice buf ss = Ok (slice_entry buf ss).
 Proof.
-  intros buf ss H. unfold from_slice. rewrite H.
-  change (128 <? 64)%nat with false. change (128 <? 120)%nat with false.
+  intros buf ss H. unfold from_slice, slice_entry. rewrite H.
+  change (128 <? 64)%nat with false. change (128 <? 80)%nat with false. change (128 <? 120)%nat with false.
   change (128 <? 124)%nat with false. change (128 <? 128)%nat with false. cbn iota.
   destruct (ss =? 512); reflexivity.
 Qed.
@@ -176,16 +249,16 @@ Qed.
    sizes *)
 Theorem directory_from_slice_name : forall name pad mid start size ss,
   ascii_name name = true ->
-  exists s l, from_slice (dir_entry_bytes name pad mid start size) ss
-              = Ok {| d_name := name; d_start := s; d_len := l |}.
+  exists d, from_slice (dir_entry_bytes name pad mid start size) ss = Ok d /\ d_name d = name.
 Proof.
   intros name pad mid start size ss H. unfold ascii_name in H. apply andb_prop in H.
   destruct H as [Hasc Hlen]. apply Nat.leb_le in Hlen.
   destruct (name_field_shape name pad Hlen) as (rest & Hshape & Hl64).
   rewrite (from_slice_128 _ ss (dir_entry_length name pad mid start size Hlen)).
+  eexists. split; [reflexivity|]. unfold slice_entry. cbn [d_name].
   assert (Hname : firstn 64 (dir_entry_bytes name pad mid start size) = name_field name pad).
   { unfold dir_entry_bytes. apply firstn_app_exact'. exact Hl64. }
-  rewrite Hname, Hshape, (decode_name_ascii name rest Hasc). eexists; eexists; reflexivity.
+  rewrite Hname, Hshape. apply (decode_name_ascii name rest Hasc).
 Qed.
 
 (* chunks_exact(128) over a directory chain made of whole entries *)
@@ -237,8 +310,7 @@ Proof.
   intros ss. induction 1 as [|e ents He _ IH].
   - exists []. split; [reflexivity|]. split; [reflexivity|]. intros [|i] e H; discriminate.
   - destruct IH as (ds & Hds & Hlen & Hnth).
-    exists ({| d_name := decode_name (firstn 64 e); d_start := u32_at e 116;
-               d_len := if ss =? 512 then u32_at e 120 else u64_at e 120 |} :: ds).
+    exists (slice_entry e ss :: ds).
     cbn [map_outcome]. rewrite (from_slice_128 e ss He), Hds. cbn [obind]. split; [reflexivity|].
     split; [cbn [length]; lia|]. intros [|i] e' H'.
     + cbn [nth_error] in *. inversion H'. subst. eexists. split; [reflexivity|].
@@ -249,20 +321,22 @@ Qed.
 (* MAIN (directory-chain level): a directory chain of whole 128-byte entries, one of which — at
    any index — is the entry a writer lays out for the name EncryptedPackage (any bytes behind the
    terminator, any other fields, any start and size), all other entries ARBITRARY bytes: the
-   directory array is built and the check answers Password *)
+   directory array is built; the check answers Password when the array carries no hierarchy (the
+   root entry links to no child) or the root storage holds that entry *)
 Theorem encrypted_ooxml_is_password : forall before after_ pad mid start size ss zip,
   Forall (fun e => length e = 128%nat) before ->
   Forall (fun e => length e = 128%nat) after_ ->
   exists ds,
     parse_dirs (concat (before ++ dir_entry_bytes ENCRYPTED_PACKAGE pad mid start size :: after_)) ss
       = Ok ds /\
-    ooxml_check (Ok ds) = Err E_PASSWORD /\
-    ooxml_new (Ok ds) zip = Err E_PASSWORD.
+    (children ds 0 = [] \/ In (N.of_nat (length before)) (children ds 0) ->
+     ooxml_check (Ok ds) = Err E_PASSWORD /\
+     ooxml_new (Ok ds) zip = Err E_PASSWORD).
 Proof.
   intros before after_ pad mid start size ss zip Hb Ha.
   set (ep := dir_entry_bytes ENCRYPTED_PACKAGE pad mid start size).
   destruct (directory_from_slice_name ENCRYPTED_PACKAGE pad mid start size ss eq_refl)
-    as (s & l & Hep). fold ep in Hep.
+    as (dep & Hep & Hname). fold ep in Hep.
   assert (Hlen : length ep = 128%nat) by (apply dir_entry_length; cbn; lia).
   assert (Hall : Forall (fun e => length e = 128%nat) (before ++ ep :: after_)).
   { apply Forall_app. split; [exact Hb|]. constructor; assumption. }
@@ -271,42 +345,65 @@ Proof.
   { rewrite nth_error_app2 by lia. rewrite Nat.sub_diag. reflexivity. }
   rewrite Hep in Hfs. inversion Hfs. subst d.
   exists ds. unfold parse_dirs. rewrite (chunks_exact_concat _ Hall), Hds. cbn [obind].
-  assert (Hin : In {| d_name := ENCRYPTED_PACKAGE; d_start := s; d_len := l |} ds)
-    by (eapply nth_error_In; exact Hd).
+  assert (Hin : In dep ds) by (eapply nth_error_In; exact Hd).
   destruct ds as [|d0 ds0]; [destruct Hin|]. split; [reflexivity|].
+  intros Hreach.
   assert (Hhas : PasswordCfb.has_directory (d0 :: ds0) ENCRYPTED_PACKAGE = true).
-  { apply has_directory_iff. eexists. split; [exact Hin|reflexivity]. }
+  { destruct Hreach as [Hflat|Hchild].
+    - apply (@has_directory_flat_iff (d0 :: ds0) ENCRYPTED_PACKAGE Hflat). exists dep. split; [exact Hin|exact Hname].
+    - apply (@has_directory_child (d0 :: ds0) ENCRYPTED_PACKAGE (N.of_nat (length before)) dep Hchild); [|exact Hname].
+      rewrite nthN_nth_error, Nat2N.id. exact Hd. }
   unfold ooxml_new, ooxml_check. rewrite Hhas. split; reflexivity.
 Qed.
 
 (* ================================================================== any container layout *)
-(* MAIN (ooxml, positive, BYTES): for every container holding an object named EncryptedPackage
-   (any content, any size — mini stream or regular sectors —, any other streams and storages) and
-   EVERY valid physical layout of it (sector size, placement of FAT / DIFAT / directory / mini FAT
-   / mini stream / stream sectors, directory slots, free sectors, padding), the check on the
-   written bytes answers Password.  Composition with C13_written_names_listed. *)
+(* MAIN (ooxml, positive, BYTES): for every container whose ROOT storage holds an object named
+   EncryptedPackage (any content, any size — mini stream or regular sectors —, any other streams
+   and storages, any hierarchy) and EVERY valid physical layout of it (sector size, placement of
+   FAT / DIFAT / directory / mini FAT / mini stream / stream sectors, directory slots, free sectors,
+   padding) whose links are a tree over the hierarchy (any shape), the check on the written
+   bytes answers Password.  Composition with C13_has_directory_root. *)
+Lemma ep_plain : plain ENCRYPTED_PACKAGE.
+Proof. split; discriminate. Qed.
+
 Theorem encrypted_ooxml_is_password_any_layout : forall c l fuel zip,
-  valid_layout c l -> (fuel_for l <= fuel)%nat ->
-  In ENCRYPTED_PACKAGE (all_names c) ->
+  valid_layout c l -> linked_tree c l -> (fuel_for l <= fuel)%nat ->
+  resolve c 0 [ENCRYPTED_PACKAGE] <> None ->
   ooxml_check_bytes fuel (cfb_write c l) = Err E_PASSWORD /\
   ooxml_new_bytes fuel (cfb_write c l) zip = Err E_PASSWORD.
 Proof.
-  intros c l fuel zip Hv Hf Hin.
-  destruct (@written_names_listed c l fuel Hv Hf) as (cf & r & Hnew & Hnames).
-  destruct (Hnames _ Hin) as [_ Hhas]. rewrite has_directory_is_cfb in Hhas.
+  intros c l fuel zip Hv Ht Hf Hin.
+  destruct (@has_directory_root c l Hv Ht fuel Hf) as (cf & r & Hnew & _ & Hhas).
+  specialize (Hhas _ ep_plain). rewrite has_directory_is_cfb in Hhas.
+  destruct (resolve c 0 [ENCRYPTED_PACKAGE]); [|contradiction].
   unfold ooxml_new_bytes, ooxml_check_bytes, ooxml_new, ooxml_check, cfb_dirs.
   rewrite Hnew. cbn [obind fst]. rewrite Hhas. split; reflexivity.
 Qed.
 
+(* the usual case: a stream of that name in the root storage, any ciphertext *)
 Corollary encrypted_stream_is_password_any_layout : forall c l fuel zip bytes,
-  valid_layout c l -> (fuel_for l <= fuel)%nat ->
-  In (ENCRYPTED_PACKAGE, bytes) (c_streams c) ->
+  valid_layout c l -> linked_tree c l -> (fuel_for l <= fuel)%nat ->
+  spec_path c [ENCRYPTED_PACKAGE] = Some bytes ->
   ooxml_check_bytes fuel (cfb_write c l) = Err E_PASSWORD /\
   ooxml_new_bytes fuel (cfb_write c l) zip = Err E_PASSWORD.
 Proof.
-  intros c l fuel zip bytes Hv Hf Hin. apply encrypted_ooxml_is_password_any_layout; try assumption.
-  unfold all_names. apply in_or_app. right.
-  change ENCRYPTED_PACKAGE with (fst (ENCRYPTED_PACKAGE, bytes)). apply in_map. exact Hin.
+  intros c l fuel zip bytes Hv Ht Hf Hin. apply encrypted_ooxml_is_password_any_layout; try assumption.
+  unfold spec_path in Hin. destruct (resolve c 0 [ENCRYPTED_PACKAGE]); discriminate.
+Qed.
+
+(* no hierarchy written (every link NOSTREAM, as simple writers leave them): an object of that name
+   anywhere in the container *)
+Theorem encrypted_ooxml_is_password_any_layout_flat : forall c l fuel zip,
+  valid_layout c l -> flat_root c l -> (fuel_for l <= fuel)%nat ->
+  In ENCRYPTED_PACKAGE (all_names c) ->
+  ooxml_check_bytes fuel (cfb_write c l) = Err E_PASSWORD /\
+  ooxml_new_bytes fuel (cfb_write c l) zip = Err E_PASSWORD.
+Proof.
+  intros c l fuel zip Hv Hfl Hf Hin.
+  destruct (@has_directory_flat c l fuel Hv Hfl Hf) as (cf & r & Hnew & _ & Hhas).
+  pose proof (proj2 (Hhas _ ep_plain) Hin) as H. rewrite has_directory_is_cfb in H.
+  unfold ooxml_new_bytes, ooxml_check_bytes, ooxml_new, ooxml_check, cfb_dirs.
+  rewrite Hnew. cbn [obind fst]. rewrite H. split; reflexivity.
 Qed.
 
 (* the names of the directory array of a written container: the root entry, unused slots (empty
@@ -315,18 +412,14 @@ Lemma parsed_dirs_names : forall c l d, valid_layout c l -> In d (parsed_dirs c 
   d_name d = ROOT_NAME \/ d_name d = [] \/ In (d_name d) (all_names c).
 Proof.
   intros c l d Hv Hin. unfold parsed_dirs in Hin. apply in_map_iff in Hin.
-  destruct Hin as (i & <- & _). unfold dir_item, dir_item_of.
-  destruct (i =? 0); [left; reflexivity|].
-  destruct (assocN i (slot_table c l)) as [it|] eqn:E; [|right; left; reflexivity].
-  right; right. apply assocN_Some_In in E. unfold slot_table in E. apply in_combine_r in E.
-  destruct (valid_dir Hv) as [_ [_ [_ [Hlc _]]]].
-  rewrite <- (items_names_eq c l Hlc). cbn [dirent_of_item d_name].
-  apply (in_map (fun it => fst (fst (fst it)))). exact E.
+  destruct Hin as (i & <- & _).
+  destruct (@entry_at_name c l i Hv) as [E|[E|[it [Hit E]]]]; [left; exact E|right; left; exact E|].
+  right; right. rewrite E. apply (slot_table_names _ _ _ _ Hit).
 Qed.
 
 (* MAIN (ooxml, converse, BYTES): a compound file written from a container without any object of
-   that name — in every valid layout — is not reported (an xls workbook handed to the xlsx
-   reader, say); the reader goes on to the zip *)
+   that name — in every valid layout, WHATEVER its links — is not reported (an xls workbook handed
+   to the xlsx reader, say); the reader goes on to the zip *)
 Theorem no_encrypted_package_any_layout : forall c l fuel zip,
   valid_layout c l -> (fuel_for l <= fuel)%nat ->
   ~ In ENCRYPTED_PACKAGE (all_names c) ->
@@ -339,9 +432,26 @@ Proof.
   rewrite Hnew. cbn [obind fst]. rewrite Hdirs.
   destruct (PasswordCfb.has_directory (parsed_dirs c l) ENCRYPTED_PACKAGE) eqn:E;
     [|split; reflexivity].
-  exfalso. apply has_directory_iff in E. destruct E as (d & Hin & Hd).
+  exfalso. apply has_directory_sound in E. destruct E as (d & Hin & Hd).
   destruct (parsed_dirs_names c l d Hv Hin) as [H|[H|H]]; rewrite Hd in H;
     [discriminate|discriminate|exact (Hnot H)].
+Qed.
+
+(* MAIN (ooxml, "only then", BYTES): an object named EncryptedPackage that only an EMBEDDED object
+   holds (MBD.../EncryptedPackage: an encrypted document embedded in an unprotected file) does not
+   make the file count as password protected — since the fix of G8; before it the flat scan
+   reported it *)
+Theorem nested_encrypted_package_not_password : forall c l fuel zip,
+  valid_layout c l -> linked_tree c l -> (fuel_for l <= fuel)%nat ->
+  resolve c 0 [ENCRYPTED_PACKAGE] = None ->
+  ooxml_check_bytes fuel (cfb_write c l) = Ok tt /\
+  ooxml_new_bytes fuel (cfb_write c l) zip = zip.
+Proof.
+  intros c l fuel zip Hv Ht Hf Hno.
+  destruct (@has_directory_root c l Hv Ht fuel Hf) as (cf & r & Hnew & _ & Hhas).
+  specialize (Hhas _ ep_plain). rewrite has_directory_is_cfb, Hno in Hhas.
+  unfold ooxml_new_bytes, ooxml_check_bytes, ooxml_new, ooxml_check, cfb_dirs.
+  rewrite Hnew. cbn [obind fst]. rewrite Hhas. split; reflexivity.
 Qed.
 
 (* ================================================================== totality *)
